@@ -17,6 +17,7 @@ TAG_PROPERTY = {
     "ev.guard": "C04", "ev.guard.pending": "C04", "q": "C04", "req": "C04", "rem": "C04", "oreq": "C04",
     "ev.traverse": "C05", "mon.reach": "C05",
     "ev.plan": "C06", "plans": "C06", "pex": "C06", "succ": "C06", "fail": "C06", "tasks": "C06", "hst": "C06", "sst": "C06",
+    "plog": "C07", "mon.plan.iter": "C07", "mon.plan.chain": "C07", "mon.plan.disjoint": "C07", "mon.plan.count": "C07", "mon.plan.free": "C07",
     "prev": "C09", "tt": "C09", "last": "C09",
     "mon.idle.pe": "C13", "mon.idle.px": "C13", "mon.idle.pc": "C13", "mon.idle.px.D10": "C13", "mon.idle.pc.D10": "C13", "mon.scheduled": "C13", "sub": "C13",
     "isR": "C13", "isS": "C13", "ev.guard.queries": "C13", "pe": "C13", "px": "C13", "pc": "C13", "ev.config": "C13",
@@ -31,10 +32,10 @@ CONFIG_TAGS = {"act", "isA", "res"}
 UNATTRIBUTED = {"ev.life", "ev.report", "ev.all"}
 
 TIERS = {
-    "quick": dict(fixtures=["min", "comp", "ortho", "strat", "auto", "peers", "util"], records=900, chunks=3,
+    "quick": dict(fixtures=["min", "comp", "ortho", "strat", "auto", "peers", "util", "plancap"], records=900, chunks=3,
                   variants=["plain", "asan", "assert"], extra_variant_fixtures=["min", "ortho", "auto"],
                   mc=["min", "comp", "util"], systematic={"auto": 2, "ortho": 1}),
-    "thorough": dict(fixtures=["min", "comp", "ortho", "strat", "auto", "peers", "oroot", "wide", "plan", "selpeers", "util"],
+    "thorough": dict(fixtures=["min", "comp", "ortho", "strat", "auto", "peers", "oroot", "wide", "plan", "selpeers", "util", "plancap"],
                      records=12000, chunks=12, variants=["plain", "asan", "assert", "dev", "plain11"], mc=["min", "comp", "ortho", "oroot", "util", "peers"],
                      systematic={"min": 12, "comp": 10, "ortho": 8, "strat": 6, "auto": 10, "peers": 6, "oroot": 8, "plan": 6}),
 }
@@ -177,6 +178,10 @@ def vetoed_records(run):
     return {(f, l) for f, l in run["notes"].get("vetoed", [])}
 
 
+def planedit_records(run):
+    return {(f, l) for f, l in run["notes"].get("planedit", [])}
+
+
 def route(run, d, rec_kinds=None):
     """property id for a diff, or None (unattributed)"""
     tag = d["tag"]
@@ -190,6 +195,8 @@ def route(run, d, rec_kinds=None):
             return "C10"
         if tag in CONFIG_TAGS:
             return "C04" if (d["file"], d["l"]) in vetoed_records(run) else "C02"
+    if tag in ("plans", "tasks", "pex", "plog") and (d["file"], d["l"]) in planedit_records(run):
+        return "C07"
     return TAG_PROPERTY.get(tag)
 
 
@@ -202,7 +209,8 @@ STAGES = [
     ("C06", {"ev.plan", "succ", "fail", "hst", "sst"}),
     ("C12", {"draws"}),
     ("CFG", {"act", "isA", "res"}),
-    ("C06", {"plans", "pex", "tasks"}),             # plan edits made from lifecycle callbacks come after the resolution
+    ("C06", {"plans", "pex", "tasks", "plog"}),     # plan edits made from lifecycle callbacks come after the resolution
+                                                    # (C07 when user code edited a plan in that step, see primary())
     ("C04", {"ev.guard", "ev.guard.pending", "q", "req", "rem", "oreq"}),
     ("C13", {"sub", "isR", "isS", "ev.guard.queries", "pe", "px", "pc", "ev.config"}),
     ("C09", {"prev", "tt", "last", "ret"}),
@@ -224,6 +232,8 @@ def primary(run, ds):
         hit = [d for d in ds if d["tag"] in stage_tags]
         if not hit:
             continue
+        if prop == "C06" and "plans" in stage_tags and (ds[0]["file"], ds[0]["l"]) in planedit_records(run):
+            return "C07", hit       # the storage of tasks (append / remove / clear / iteration), not the execution of plans
         if prop == "CFG" or call in ("load", "save", "copy"):
             if call in ("load", "save"):
                 prop = "C08"
